@@ -939,7 +939,7 @@ class CallMixin:
 
     # ------------------------------------------------------- external calls
     EXT_PURE = {
-        "copy.deepcopy": "deepcopy", "copy.copy": "copy", "itertools.product": "product",
+        "copy.deepcopy": "deepcopy", "copy.copy": "copy", "itertools.product": "product", "itertools.chain": "chain",
         "collections.deque": "deque", "json.dumps": "str", "json.loads": "top", "re.compile": "extobj",
         "re.sub": "str", "numpy.empty": "ndarray", "numpy.zeros": "ndarray", "queue.Queue": "queue",
         "random.shuffle": "shuffle", "unicodedata.lookup": "str", "abc.abstractmethod": "top",
@@ -960,6 +960,10 @@ class CallMixin:
             e = join_all(es) if es else TOP
             return AV(types=frozenset({"iterator"}), elem=AV(types=frozenset({"tuple"}), elem=_strip(e)), deps=deps,
                       alias=fresh)
+        if kind == "chain":
+            es = [self.iterate(a, n, st, frame) for a in args]
+            e = join_all(es) if es else None
+            return AV(types=frozenset({"iterator"}), elem=_strip(e) if e is not None else None, deps=deps, alias=fresh)
         if kind == "deque":
             e = self.iterate(a0, n, st, frame) if a0 is not None else None
             return AV(types=frozenset({"deque"}), alias=fresh, elem=_strip(e) if e is not None else None, deps=deps,
